@@ -200,14 +200,24 @@ def run(rep, tier):
                      classes=["random", "mac:" + c["cl"][0], "outcome:" + res, "kt:" + c["cfg"].auth_kt])
 
         n = 1500 if tier == "quick" else 50000
-        core.run_hypothesis(rep, gen.case_strategy(build_case, 256), body, n,
-                            describe=lambda c: {"_cfg": gen.cfg_to_json(c["cfg"]), "op": c["op"], "cl": list(c["cl"]), "payload": c["payload"]})
+        found = core.run_hypothesis(rep, gen.case_strategy(build_case, 256), body, n,
+                                    describe=lambda c: {"_cfg": gen.cfg_to_json(c["cfg"]), "op": c["op"], "cl": list(c["cl"]), "payload": c["payload"]})
         rep.exhaustive = None
+        if not found:
+            # sessions of the real clients that get their keys after discovery (also after a failed first attempt): replies
+            # that must be rejected are rejected, and the session keeps asking at its security level - one that falls
+            # back to noAuthNoPriv takes unauthenticated replies from anybody
+            from checks import v3hist
+            v3hist.discovered_stage(rep, G, "C10", 120 if tier == "quick" else 2500, True, False,
+                                    ("rejected-reply-delivered", "foreign-engine-reply-delivered", "flags", "auth-flag-clear", "user-name"))
     finally:
         link.close()
 
 
 def replay(rep, case, body=None):
+    if case.get("_stage") == "discovered":
+        from checks import v3hist
+        return v3hist.replay_discovered(rep, case)
     G = drivers.load()
     link = ag.NbLink()
     try:
